@@ -160,7 +160,7 @@ def oracle_c06(rec: I.Rec):
                 else:
                     first_ok.setdefault(k, o[1])
                     ok_now[k] = o[1]
-        due_before = [k for k in nfail if 1 <= nfail[k] <= R and k not in told and k not in inflight.values()]
+        due_before = [k for k in nfail if 1 <= nfail[k] <= R and k not in first_ok and k not in told and k not in inflight.values()]
         free = M - len(inflight)
         submitted_now, ask_n = [], None
         for a in st["acts"]:
